@@ -586,12 +586,27 @@ class Run:
                 self.violation('C18:backup-names', 'data file %s is not named after a clock reading of '
                                'its run %r' % (new[0], [dashed(t) for t in _FT.readings]))
             now = stem_t
+        else:
+            # a run that failed after writing its index (see corpus 09) leaves <date>.index behind: the
+            # model is told the date the run used for its names
+            orphan = sorted(n for n in after - before if SIDE_RE.match(n) and n.endswith('.index'))
+            if orphan:
+                import calendar
+                now = calendar.timegm(tuple(int(x) for x in SIDE_RE.match(orphan[0]).groups()[:6]))
         self.all_backups.append((now, committed))
         ctx = ('in-progress' if tail else 'after-pack' if self.pack_since_backup else 'plain')
+        excluded_run = quick_decides and not qd
         if status != 0:
             obs = err_kind(status, msg)
-            self.violation('C18:backup-failed:%s' % ctx, 'backup %r at %s failed: %s %s' % (
-                flags, dashed(now), status, msg[:200]))
+            if excluded_run:
+                # outside QuickDetectable the quick mode may also decide for an incremental that cannot
+                # be taken (committed end below the recorded end: copyfile's assert fails); not judged
+                self.count('backup:failed-outside-QuickDetectable(not judged):' + obs)
+                if len(self.excluded_notes) < 6:
+                    self.excluded_notes.append('backup -%s at %s: %s %s' % (flags, dashed(now), status, msg[:120]))
+            else:
+                self.violation('C18:backup-failed:%s' % ctx, 'backup %r at %s failed: %s %s' % (
+                    flags, dashed(now), status, msg[:200]))
         elif not new:
             obs = 'noop'
             self.count('backup:noop')
@@ -643,6 +658,11 @@ class Run:
         have = sorted(n for n in after if DATA_RE.match(n))
         if status == 0 and have != held_names:
             self.violation('C18:retention', 'repository holds %r, expected %r' % (have, held_names))
+        if excluded_run and status != 0:
+            other = [x for x in other if x != 'tmp.tmp']
+            self.crashed_tmp = True
+        if getattr(self, 'crashed_tmp', False):
+            other = [x for x in other if x != 'tmp.tmp']     # left by that crash until the next copyfile
         if other:
             self.violation('C18:stray-files', 'unexpected files in the repository: %r' % other)
 
